@@ -68,12 +68,14 @@ def variant_edges(prog, body, sl, pred, adt_path, variant):
     """Edges taken when discriminant(place) == `variant` of ADT adt_path.
     Handles both explicit value edges and `otherwise` when the variant is the
     only one not listed."""
+    STD = {"core::ops::control_flow::ControlFlow": {"Continue": 0, "Break": 1}, "core::option::Option": {"None": 0, "Some": 1},
+           "core::result::Result": {"Ok": 0, "Err": 1}, "core::cmp::Ordering": {"Less": -1 & 0xFF, "Equal": 0, "Greater": 1}}
     adt = prog.adts.get(adt_path)
     res = []
     for bi, by, other in discr_edges(body, sl, pred):
-        if adt is None:
+        if adt is None and adt_path not in STD:
             continue
-        vals = {v["name"]: int(v["discr"]) for v in adt["variants"]}
+        vals = {v["name"]: int(v["discr"]) for v in adt["variants"]} if adt is not None else STD[adt_path]
         want = vals[variant]
         if want in by:
             res.extend(by[want])
